@@ -232,6 +232,77 @@ def defaults_changed(before, after):
   return out
 
 
+def safe_repr(v, n=120):
+  """repr that cannot raise (a value in a state its schema rejects may not be
+  printable)."""
+  try:
+    return repr(v)[:n]
+  except Exception as e:  # pylint: disable=broad-except
+    return f'<{type(v).__name__}: repr raised {type(e).__name__}>'
+
+
+def first_missing(v, prefix='', depth=0):
+  """Path of the first stored MISSING_VALUE at or below a symbolic value (what
+  makes it partial), found by walking the members; None when complete."""
+  if not isinstance(v, pg.Symbolic) or isinstance(v, pg.Ref) or depth > 50:
+    return None
+  for k, x in v.sym_items():
+    if is_missing(x):
+      return f'{prefix}{k}'
+    got = first_missing(x, f'{prefix}{k}.', depth + 1)
+    if got is not None:
+      return got
+  return None
+
+
+def check_member_safe(node, key, value, field, problems, where, tolerate_partial=False):
+  spec = field.value
+  partial = tolerate_partial or effective_partial(node)
+  if is_missing(value):
+    if not partial and not spec.has_default:
+      problems.append(('missing-required', f'{where}[{key!r}] is missing and the '
+                       f'{type(node).__name__} is not partial'))
+    return
+  if spec.frozen and spec.has_default and not pg.eq(value, spec.default):
+    problems.append(('frozen-changed', f'{where}[{key!r}]={safe_repr(value, 80)} but the field '
+                     f'is frozen to {spec.default!r:.80}'))
+    return
+  ref = reference_reject(spec, value)
+  if ref:
+    problems.append(('member-out-of-domain',
+                     f'{where}[{key!r}]={safe_repr(value, 80)} violates {ref} of {spec!r:.120} '
+                     '(reference rule over the public spec parameters)'))
+    return
+  if (isinstance(spec, T.Object) and isinstance(value, pg.Object) and
+      isinstance(spec.cls, type) and getattr(spec, 'transform', None) is None):
+    # Reference rule for an object stored under an Object spec (no clone, and
+    # independent of `is_partial` as computed by the library): right class, and
+    # complete unless the holder was explicitly made partial. The members of
+    # the object are visited as a typed node of their own.
+    if not isinstance(value, spec.cls):
+      problems.append(('member-rejected', f'{where}[{key!r}]={safe_repr(value, 120)} is not '
+                       f'an instance of {spec.cls.__name__}'))
+    elif not partial:
+      gap = first_missing(value)
+      if gap is not None:
+        problems.append(('member-rejected',
+                         f'{where}[{key!r}]={safe_repr(value, 120)} is partial (member '
+                         f'{gap} is missing) but the {type(node).__name__} that holds it '
+                         'was not made partial'))
+    return
+  try:
+    r = spec.apply(detach(value), allow_partial=partial)
+  except (TypeError, ValueError, KeyError) as e:
+    problems.append(('member-rejected',
+                     f'{where}[{key!r}]={safe_repr(value, 120)} is rejected by {spec!r:.120}: '
+                     f'{type(e).__name__}: {e!s:.160}'))
+    return
+  if not contains_ref(value) and not pg.eq(r, value):
+    problems.append(('not-fixpoint',
+                     f'{where}[{key!r}]={safe_repr(value, 120)} maps to {safe_repr(r, 120)} under {spec!r:.100}'))
+
+
+
 # -- per-node partial tolerance (C03) --------------------------------------------
 
 def edge_constrains(container, key):
@@ -244,6 +315,8 @@ def edge_constrains(container, key):
     field = None
   if field is None:
     return False
+  if isinstance(field.value, T.Dict) and field.value.schema is None:
+    return False                 # any keys, any values
   return isinstance(field.value, (T.Object, T.Dict, T.List, T.Tuple))
 
 
@@ -283,7 +356,7 @@ def schema_ok_nodes(forest, counters=None, tolerate=None):
       for k, v in items:
         if counters is not None:
           counters['schema_ok_members'] += 1
-        check_member(node, k, v, lspec.element, problems, where, tol)
+        check_member_safe(node, k, v, lspec.element, problems, where, tol)
       continue
     if schema is None:
       continue
@@ -300,10 +373,10 @@ def schema_ok_nodes(forest, counters=None, tolerate=None):
       if field is None:
         problems.append(('undeclared-key', f'{where}: key {k!r} is not declared'))
         continue
-      check_member(node, k, v, field, problems, where, tol)
+      check_member_safe(node, k, v, field, problems, where, tol)
     for kspec, field in schema.fields.items():
-      if isinstance(kspec, T.ConstStrKey) and str(kspec) not in present:
+      if isinstance(kspec, T.ConstStrKey) and kspec.text not in present:
         if not (tol or effective_partial(node)) and not field.value.has_default:
           problems.append(('missing-required',
-                           f'{where}: required key {str(kspec)!r} is absent'))
+                           f'{where}: required key {kspec.text!r} is absent'))
   return problems
